@@ -124,6 +124,10 @@ func EmitCase(w *bufio.Writer, id int, stream string, hex bool, text []byte, o O
 				fmt.Fprintf(w, "PRS %s err\n", cpsLine(Cps([]byte(t.Value))))
 			} else {
 				fmt.Fprintf(w, "PRS %s ok %d\n", cpsLine(Cps([]byte(t.Value))), math.Float64bits(x))
+				// oracle law 3 (hypothesis of parse_output_expressible): no error => finite
+				if math.IsInf(x, 0) || math.IsNaN(x) {
+					fmt.Fprintf(w, "LAWFAIL parsefloat-finite %s\n", cpsLine(Cps([]byte(t.Value))))
+				}
 			}
 		}
 	}
@@ -139,7 +143,17 @@ func EmitCase(w *bufio.Writer, id int, stream string, hex bool, text []byte, o O
 			bits := math.Float64bits(x)
 			if !fseen[bits] {
 				fseen[bits] = true
-				fmt.Fprintf(w, "FMT %d %s\n", bits, cpsLine(Cps([]byte(strconv.FormatFloat(x, 'f', -1, 64)))))
+				ft := strconv.FormatFloat(x, 'f', -1, 64)
+				fmt.Fprintf(w, "FMT %d %s\n", bits, cpsLine(Cps([]byte(ft))))
+				// oracle laws 1 and 2 (oracle_ok): round trip and shape, for finite values
+				if !math.IsInf(x, 0) && !math.IsNaN(x) {
+					if y, err := strconv.ParseFloat(ft, 64); err != nil || math.Float64bits(y) != bits {
+						fmt.Fprintf(w, "LAWFAIL format-parse-roundtrip %s\n", cpsLine(Cps([]byte(ft))))
+					}
+					if !plainNumber(ft) {
+						fmt.Fprintf(w, "LAWFAIL format-shape %s\n", cpsLine(Cps([]byte(ft))))
+					}
+				}
 			}
 		}
 		wt, pan := WriteSafe(o.File, hex)
@@ -159,6 +173,22 @@ func EmitCase(w *bufio.Writer, id int, stream string, hex bool, text []byte, o O
 		fmt.Fprintf(w, "%s\n", e)
 	}
 	fmt.Fprintf(w, "END\n")
+}
+
+// plainNumber: -?digit(digit|.)*  (Expr.plain_number)
+func plainNumber(s string) bool {
+	if strings.HasPrefix(s, "-") {
+		s = s[1:]
+	}
+	if s == "" || s[0] < '0' || s[0] > '9' {
+		return false
+	}
+	for i := 1; i < len(s); i++ {
+		if (s[i] < '0' || s[i] > '9') && s[i] != '.' {
+			return false
+		}
+	}
+	return true
 }
 
 // Tables writes the static tables of package dbc for comparison with the model's tables.
